@@ -6,7 +6,7 @@
 use nitrogql_ast::operation::ExecutableDefinition;
 use nitrogql_config_file::{parse_config, ScalarTypeConfig, SendReceiveScalarTypeConfig, SeparateScalarTypeConfig};
 use nitrogql_printer::verif_hooks::{get_type_for_variable_definitions, QueryTypePrinterContext};
-use nitrogql_printer::OperationTypePrinterOptions;
+use nitrogql_printer::{OperationTypePrinterOptions, SchemaTypePrinter, SchemaTypePrinterOptions};
 use serde_json::{json, Value as J};
 use std::collections::{BTreeMap, HashMap, HashSet};
 use verif_harness::gen::{gen_doc, gen_schema, DocCfg, Kind, Schema, SchemaCfg, BUILTIN_SCALARS};
@@ -15,7 +15,7 @@ use verif_harness::rec::{Rec, Wop};
 use verif_harness::*;
 
 fn coq_s(s: &str) -> String {
-    if s.chars().all(|c| (' '..='~').contains(&c) || c == '\n') && s.len() < 4000 {
+    if s.chars().all(|c| (' '..='~').contains(&c) || c == '\n') && s.len() < 400000 {
         let mut o = String::from("(s \"");
         for c in s.chars() { if c == '"' { o.push_str("\"\""); } else { o.push(c); } }
         o.push_str("\")");
@@ -40,8 +40,13 @@ fn ops_coq(ops: &[Wop]) -> String {
 }
 
 const TS_TEXTS: &[&str] = &["string", "number", "boolean", "Date", "Date | string", "Record<string, unknown>", "bigint", "In0", "E0", "unknown"];
-fn scalar_cfg(rng: &mut Rng) -> ScalarTypeConfig {
-    let t = |rng: &mut Rng| (*rng.pick(TS_TEXTS)).to_string();
+/// `others`: names of non-scalar schema types; a scalar's TS text that mentions one of them makes the
+/// printer rename that type inside the namespaces (otherwise the declaration would capture the identifier)
+fn scalar_cfg(rng: &mut Rng, others: &[String]) -> ScalarTypeConfig {
+    let t = |rng: &mut Rng| if !others.is_empty() && rng.chance(1, 4) {
+        let n = rng.pick(others).clone();
+        match rng.below(3) { 0 => n, 1 => format!("{n} | null"), _ => format!("Array<{n}>") }
+    } else { (*rng.pick(TS_TEXTS)).to_string() };
     match rng.below(3) {
         0 => ScalarTypeConfig::Single(t(rng)),
         1 => ScalarTypeConfig::SendReceive(SendReceiveScalarTypeConfig { send: t(rng), receive: t(rng) }),
@@ -114,9 +119,10 @@ fn main() {
             ("ID".into(), ScalarTypeConfig::SendReceive(SendReceiveScalarTypeConfig { send: "string | number".into(), receive: "string".into() })),
             ("String".into(), ScalarTypeConfig::Single("string".into())), ("Int".into(), ScalarTypeConfig::Single("number".into())),
             ("Float".into(), ScalarTypeConfig::Single("number".into())), ("Boolean".into(), ScalarTypeConfig::Single("boolean".into()))];
-        if rng.chance(1, 4) { let k = rng.below(scalars.len()); scalars[k].1 = scalar_cfg(&mut rng); }
+        let others: Vec<String> = if special { vec!["In".into(), "E".into()] } else { s.types.iter().filter(|t| matches!(t.kind, Kind::Enum { .. } | Kind::Input { .. })).map(|t| t.name.clone()).collect() };
+        if rng.chance(1, 4) { let k = rng.below(scalars.len()); scalars[k].1 = scalar_cfg(&mut rng, &others); }
         if special { scalars.push(("Date".into(), ScalarTypeConfig::SendReceive(SendReceiveScalarTypeConfig { send: "Date | string".into(), receive: "string".into() }))); }
-        else { for t in &s.types { if matches!(t.kind, Kind::Scalar) { scalars.push((t.name.clone(), scalar_cfg(&mut rng))); } } }
+        else { for t in &s.types { if matches!(t.kind, Kind::Scalar) { scalars.push((t.name.clone(), scalar_cfg(&mut rng, &others))); } } }
         for (_, c) in &scalars { bump(&format!("scalar-config:{}", cfg_shape(c))); }
         let ns = if rng.chance(1, 5) { "S".to_string() } else { "Schema".to_string() };
         // operations: generated accepted documents + synthetic variable lists
@@ -135,6 +141,11 @@ fn main() {
             let d = gen_doc(&mut rng, &s, &DocCfg { fragments: fr, ..DocCfg::default() });
             op_texts.push((d.render(), "generated"));
         }
+        if !special {
+            let mut vars: Vec<String> = vec![];
+            for (j, t) in s.types.iter().filter(|t| matches!(t.kind, Kind::Scalar | Kind::Enum { .. } | Kind::Input { .. })).enumerate().take(6) { vars.push(format!("$u{j}: {}", t.name)); }
+            if !vars.is_empty() { op_texts.push((format!("query Uses({}) {{ __typename }}\n", vars.join(", ")), "synthetic")); }
+        }
         for k in 0..(if special { 0 } else { 2 }) {
             let n = rng.range(1, 5);
             let vars: Vec<String> = (0..n).map(|j| {
@@ -144,6 +155,15 @@ fn main() {
             }).collect();
             op_texts.push((format!("query Syn{k}({}) {{ __typename }}\n", vars.join(", ")), "synthetic"));
         }
+        // the schema declaration the implementation prints under each value of the option: C09 reads the
+        // Variables types through the `__OperationInput` namespace of THIS text
+        let schema_text = |allow: bool| -> Option<String> {
+            let opts = SchemaTypePrinterOptions { scalar_types: scalars.iter().cloned().collect::<HashMap<_, _>>(),
+                schema_metadata_type: "__nitrogql_schema".into(), input_nullable_field_is_optional: allow, emit_schema_runtime: false };
+            catch(std::panic::AssertUnwindSafe(|| { let mut w = Rec::new(); SchemaTypePrinter::new(opts, &mut w).print_document(&doc).ok().map(|_| w.text()) })).ok().flatten()
+        };
+        let (text_on, text_off) = (schema_text(true), schema_text(false));
+        if text_on.is_none() { bump("schema-declaration-error"); }
         let mut runs_coq: Vec<String> = vec![]; let mut runs_j: Vec<J> = vec![];
         let mut any_config_interesting = false;
         for (text, origin) in &op_texts {
@@ -185,9 +205,9 @@ fn main() {
         if runs_coq.is_empty() { bump("schema-without-variables"); continue; }
         let sopts = format!("(mkSOpts {} (s \"__nitrogql_schema\") true false)", coq_list(&scalars, |(k, c)| format!("({}, {})", coq_str(k), cfg_coq(c))));
         let dj = json!({"kind": "variables", "path": "direct", "schema": sdl, "scalarTypes": scalars.iter().map(|(k, c)| (k.clone(), cfg_json(c))).collect::<serde_json::Map<_, _>>(),
-                        "schemaRootNamespace": ns, "runs": runs_j});
+                        "schemaRootNamespace": ns, "runs": runs_j, "schema_declaration_option_on": text_on, "schema_declaration_option_off": text_off});
         if samples.len() < 2 && i % 41 == 0 { samples.push(dj.clone()); }
-        let body = format!("{} {} {} [{}]", ast_coq::tsdoc(&doc), sopts, coq_str(&ns), runs_coq.join("; "));
+        let body = format!("{} {} {} {} {} [{}]", ast_coq::tsdoc(&doc), sopts, coq_str(&ns), coq_opt(&text_on, |x| coq_s(x)), coq_opt(&text_off, |x| coq_s(x)), runs_coq.join("; "));
         cases.push(format!("CVars false {body}"), dj.clone());
         bump("cases:direct");
         // the same runs judged on the result obtained through from_config (configuration text -> options)
